@@ -2,6 +2,8 @@
 Line-protocol driver: one JSON request per line on stdin, one JSON answer per line on stdout.
 -/
 import DimModel.Driver.Codec
+import DimModel.Spec.C01
+import DimModel.Spec.C02
 open Lean
 namespace DimModel.Driver
 open DimModel.Codec
@@ -17,7 +19,15 @@ def handle (op : String) (req : Json) : P (List (String × Json)) := do
     let clip ← bool (fldD req "clip" (Json.bool false))
     let r := Lib.loc ax.labels ax.kind i t clip
     let pos := r.bind (fun raw => Lib.resolveRaw raw ax.size)
-    pure [("lib", encExcept encRaw r),
+    let spec : Json := match i with
+      | .slice s e st => (match Spec.sliceSel ax.labels ax.kind s e st with
+          | some ps => encNats ps
+          | none => Json.str "error")
+      | _ => (match Spec.positions ax.labels i with
+          | some (PosIx.scalar k) => encNats [k]
+          | some (PosIx.list ps) => encNats ps
+          | none => Json.str "error")
+    pure [("lib", encExcept encRaw r), ("spec", spec),
           ("positions", encExcept (fun p => match p with
               | PosIx.scalar k => Json.arr #["sc", Json.num (JsonNumber.fromNat k)]
               | PosIx.list ps => Json.arr #["li", encNats ps]) pos)]
